@@ -184,6 +184,18 @@ func shrink(t *chaingen.Tree, plan []mgrsim.Op, kind string) []mgrsim.Op {
 	return plan
 }
 
+// safeTree regenerates the case's tree; the generator builds blocks with real chain.Manager
+// nodes, so a panic there ("mined block rejected", "replay failed") means a linear node refused a
+// valid block or chain: that is reported as a failure of the node, not as a harness crash.
+func safeTree(cs mgrsim.Case) (t *chaingen.Tree, msg string) {
+	defer func() {
+		if r := recover(); r != nil {
+			t, msg = nil, fmt.Sprint(r)
+		}
+	}()
+	return cs.Tree(), ""
+}
+
 func run(c *hx.Ctx) {
 	res := c.Res
 	res.Shard = 40
@@ -253,7 +265,12 @@ func run(c *hx.Ctx) {
 		if cs.Regime >= 3 && r.Bool() {
 			cs.Opts.Jitter = 4000 // fast and slow blocks: branches diverge in work (near-ties for the 20% rule)
 		}
-		t := cs.Tree()
+		t, gerr := safeTree(cs)
+		if t == nil {
+			res.Eval(fmt.Sprint("generator ", cs.Seed), true)
+			res.Fail("c19-linear-node-rejects-valid-block", "while building a fork tree a linear node (real chain.Manager fed only valid blocks in order) failed: "+gerr, map[string]any{"case": cs})
+			continue
+		}
 		pr := rng.New(cs.Seed ^ 0x9747b28c)
 		plan := mgrsim.GenPlan(pr, t, true)
 		// make sure prunes happen after something was adopted: interleave extra prunes
